@@ -529,19 +529,33 @@ func init() {
 				func(h model.Expr) model.Expr {
 					return model.Index{X: model.ArrLit{Elems: []model.Expr{one, h}}, I: model.Lit{V: model.Int(0)}}
 				},
-				func(h model.Expr) model.Expr { return model.ArrLit{Elems: []model.Expr{model.ArrLit{Elems: []model.Expr{one, h}}}} },
+				func(h model.Expr) model.Expr {
+					return model.ArrLit{Elems: []model.Expr{model.ArrLit{Elems: []model.Expr{one, h}}}}
+				},
 				func(h model.Expr) model.Expr { return model.Call{X: sx, Name: "truncate", Args: []model.Expr{two, h}} },
-				func(h model.Expr) model.Expr { return model.Call{X: sx, Name: "truncate", Args: []model.Expr{model.Lit{V: model.Int(50)}, h}} },
+				func(h model.Expr) model.Expr {
+					return model.Call{X: sx, Name: "truncate", Args: []model.Expr{model.Lit{V: model.Int(50)}, h}}
+				},
 				func(h model.Expr) model.Expr { return model.Call{X: sx, Name: "contains", Args: []model.Expr{h}} },
-				func(h model.Expr) model.Expr { return model.Call{X: model.Lit{V: model.Bool(true)}, Name: "then", Args: []model.Expr{sx, h}} },
-				func(h model.Expr) model.Expr { return model.Call{X: model.Lit{V: model.Bool(false)}, Name: "then", Args: []model.Expr{h, sx}} },
+				func(h model.Expr) model.Expr {
+					return model.Call{X: model.Lit{V: model.Bool(true)}, Name: "then", Args: []model.Expr{sx, h}}
+				},
+				func(h model.Expr) model.Expr {
+					return model.Call{X: model.Lit{V: model.Bool(false)}, Name: "then", Args: []model.Expr{h, sx}}
+				},
 				func(h model.Expr) model.Expr { return model.Call{X: one, Name: "tr", Args: []model.Expr{two, h}} },
-				func(h model.Expr) model.Expr { return model.Call{X: model.ArrLit{Elems: []model.Expr{one}}, Name: "append", Args: []model.Expr{two, h}} },
-				func(h model.Expr) model.Expr { return model.Call{X: model.ArrLit{Elems: []model.Expr{one}}, Name: "slice", Args: []model.Expr{model.Lit{V: model.Int(0)}, h}} },
+				func(h model.Expr) model.Expr {
+					return model.Call{X: model.ArrLit{Elems: []model.Expr{one}}, Name: "append", Args: []model.Expr{two, h}}
+				},
+				func(h model.Expr) model.Expr {
+					return model.Call{X: model.ArrLit{Elems: []model.Expr{one}}, Name: "slice", Args: []model.Expr{model.Lit{V: model.Int(0)}, h}}
+				},
 				func(h model.Expr) model.Expr {
 					return model.Dot{X: model.ObjLit{Keys: []string{"a", "b"}, Vals: []model.Expr{one, h}}, Name: "a"}
 				},
-				func(h model.Expr) model.Expr { return model.Index{X: model.ArrLit{Elems: []model.Expr{one, two}}, I: h} },
+				func(h model.Expr) model.Expr {
+					return model.Index{X: model.ArrLit{Elems: []model.Expr{one, two}}, I: h}
+				},
 				func(h model.Expr) model.Expr { return model.Ternary{C: h, A: one, B: two} },
 				func(h model.Expr) model.Expr { return model.Ternary{C: one, A: h, B: two} },
 				func(h model.Expr) model.Expr { return model.Ternary{C: model.Lit{V: model.Int(0)}, A: one, B: h} },
